@@ -370,6 +370,7 @@ def check(run, cfg):
             res = res[prop]          # sweeps shared between properties return one entry per property
         bounded[name] = res
         nv = 0
+        before = dict(matched_known)
         for v in res.pop('violations', []):
             hit = None
             for k in bounded_known:
@@ -390,7 +391,7 @@ def check(run, cfg):
             if nv <= 3:
                 path = run.write_replay('bounded::%s::%d' % (name, nv), dict(property=prop, obligation='bounded::' + name, **v))
                 run.violations.append(('bounded::' + name, path, True))
-        res['known_finding_hits'] = dict(matched_known)
+        res['known_finding_hits'] = {k_: n_ - before.get(k_, 0) for k_, n_ in matched_known.items() if n_ - before.get(k_, 0) > 0}
     run.matched_known = matched_known
     # ---- self-test mutations
     selftests = []
